@@ -44,8 +44,8 @@ COVERAGE_TARGETS = [
     'clsSet:ValueError:copy-on-write', 'clsSet:skip', 'addParam:ok:new', 'addParam:ok:override-inherited', 'addParam:ok:replace',
     'addParam:ok:new:own-bounds', 'addParam:RuntimeError:override-inherited', 'addParam:ValueError:new:own-bounds',
     'newInst:ok', 'newInst:ok:kwargs', 'newInst:TypeError:kwargs', 'newInst:ValueError:kwargs',
-    'instSet:ok:makes-copy', 'instSet:ok:has-copy', 'instSet:ValueError:has-copy', 'instSet:skip',
-    'instParam:ok:makes-copy', 'instParam:ok:has-copy', 'instParam:KeyError',
+    'instSet:ok:makes-copy', 'instSet:ok:has-copy', 'instSet:ValueError:has-copy', 'instSet:skip:makes-copy',
+    'instParam:ok:makes-copy', 'instParam:ok:has-copy', 'instParam:KeyError:makes-copy',
     'shape:chain3', 'shape:chain4', 'shape:diamond', 'shape:diamond-tail', 'shape:two-roots', 'shape:fork',
     'obs:stale-window', 'kind:String', 'kind:Integer',
 ]
